@@ -904,7 +904,7 @@ def configure_logging(config: Config) -> None:
 
     try:
         config.log.parent.mkdir(parents=True, exist_ok=True)
-    except OSError:
+    except (OSError, ValueError):  # ValueError: NUL in path
         _log_config = None
         _log_disabled = True
         return
@@ -939,5 +939,5 @@ def log_decision(
     try:
         with open(_log_config.path, "a") as f:
             f.write(json.dumps(entry) + "\n")
-    except OSError:
+    except (OSError, ValueError):
         _log_disabled = True
